@@ -257,6 +257,54 @@ func scenario(rec *mon.Recorder, c int) {
 			return
 		}
 	}
+	// --- a member is down while the others' membership log is compacted, catches up
+	// through the leader's snapshot when it returns, and is later restarted with
+	// `-join false` (no join handshake): its own state must hold the whole book
+	if c%4 == 2 && nodes >= 3 && !doRemove {
+		lag := cl.Nodes[1+rng.Intn(nodes-1)]
+		cl.Crash(lag.Idx)
+		cl.Teardown(lag.Idx)
+		steps = append(steps, fmt.Sprintf("node %d down", lag.Id))
+		var others []*sim.Node
+		for _, n := range live {
+			if n != lag {
+				others = append(others, n)
+			}
+		}
+		if !marker(cl.Nodes[0], others, "a member went down") {
+			return
+		}
+		for _, n := range others {
+			cl.TriggerSnapshot(n, uuid.Nil, 0)
+		}
+		time.Sleep(150 * time.Millisecond)
+		steps = append(steps, "zero group compacted on the members that are up")
+		if err := cl.StartNode(lag.Idx); err != nil {
+			rec.Inconclusive(fmt.Sprintf("%s: node %d did not come back: %v", desc, lag.Id, err))
+			return
+		}
+		steps = append(steps, fmt.Sprintf("node %d back (re-joined, caught up by snapshot)", lag.Id))
+		if !marker(cl.Nodes[0], live, "catch-up by snapshot") || !checkBooks(live, joined, "after-catch-up-by-snapshot") {
+			return
+		}
+		prev := lag.In.ZeroGroup.VerifStatus().Commit
+		lag.NoRejoin = true
+		steps = append(steps, fmt.Sprintf("restart of %d with -join false", lag.Id))
+		if err := cl.Restart(lag.Idx); err != nil {
+			rec.Violation("restart:failed:without-rejoin", fmt.Sprintf("%s: restart of node %d: %v", desc, lag.Id, err), replay())
+			return
+		}
+		if cl.WaitFor(15*time.Second, func() bool { return lag.In != nil && lag.In.ZeroGroup.VerifStatus().Applied >= prev }) != nil {
+			rec.Inconclusive(fmt.Sprintf("%s: node %d did not re-apply its committed log", desc, lag.Id))
+			return
+		}
+		time.Sleep(100 * time.Millisecond)
+		if !checkBooks([]*sim.Node{lag}, joined, "after-restart-without-rejoin-of-member-caught-up-by-snapshot") {
+			return
+		}
+		rec.Seen("phases", "after-restart-without-rejoin-of-member-caught-up-by-snapshot")
+		lag.NoRejoin = false
+	}
 	// --- compaction of the membership log, then restart of a member
 	if compact {
 		for _, n := range live {
